@@ -142,7 +142,24 @@ func init() {
 	// net.ParseIP: uninterpreted function of its argument; only nil-ness of the result is modelled
 	RegisterIntrinsic("net.ParseIP", func(x *Exec, s *State, c *CallCtx) Value {
 		arg := c.Args[0].(*StrVal)
-		b := x.ufBool("net.ParseIP", arg)
+		// the result's nil-ness is invariant under ASCII case folding (hex digits only), so the
+		// function is applied to the folded argument; a non-nil result needs >= 2 bytes, all of
+		// them hex digits, ':' or '.' (necessary conditions of the real parser)
+		b := x.ufBool("net.ParseIP", x.strMapBytes(arg, func(t *Term) *Term {
+			up := x.tb.And(x.tb.ULe(x.tb.BV(8, 'A'), t), x.tb.ULe(t, x.tb.BV(8, 'Z')))
+			return x.tb.Ite(up, x.tb.Add(t, x.tb.BV(8, 32)), t)
+		}))
+		nec := x.tb.ULe(x.tb.Int64(2), arg.Len)
+		for i := 0; i < x.maxLen(arg); i++ {
+			ch := arg.B[i]
+			okc := x.tb.OrN(
+				x.tb.And(x.tb.ULe(x.tb.BV(8, '0'), ch), x.tb.ULe(ch, x.tb.BV(8, '9'))),
+				x.tb.And(x.tb.ULe(x.tb.BV(8, 'a'), ch), x.tb.ULe(ch, x.tb.BV(8, 'f'))),
+				x.tb.And(x.tb.ULe(x.tb.BV(8, 'A'), ch), x.tb.ULe(ch, x.tb.BV(8, 'F'))),
+				x.tb.Eq(ch, x.tb.BV(8, ':')), x.tb.Eq(ch, x.tb.BV(8, '.')))
+			nec = x.tb.And(nec, x.tb.Implies(x.tb.ULt(x.i64(i), arg.Len), okc))
+		}
+		b = x.tb.And(b, nec)
 		// non-nil result: a 16-byte slice of unconstrained content
 		arr := &ArrayVal{E: make([]Value, 16)}
 		nm := x.freshName("ip")
